@@ -98,4 +98,105 @@ theorem C02_cex_empty_bytes :
     marshalVarcharColumn (.bytes false true []) = .ok none := by
   refine ⟨by simp [marshalVarcharColumn], rfl, by simp [marshalVarcharColumn]⟩
 
+
+/-! ## collections (both framings) and tuple / UDT fields: framing round trips of the model -/
+
+/-- an element of a list / set / map (key or value) written by Marshal is read back by Unmarshal unchanged — the
+    same bytes, EMPTY stays empty — under the 4-byte framing and under the 2-byte framing of protocol ≤ 2 for EVERY
+    length Marshal accepts (≤ 65535: the [short] is read back unsigned); so is the element count -/
+theorem C02_coll_elem_roundtrip (p : Nat) (rest : Bytes) :
+    (∀ (b e : Bytes), collItem p (some b) = some e → readCollItem p (e ++ rest) = some (some b, rest)) ∧
+    (∀ (n : Nat) (c : Bytes), collSize p (n:Int) = some c → readCollSize p (c ++ rest) = some ((n:Int), rest)) :=
+  ⟨fun b e h => C12Frame.readCollItem_collItem p b e rest h, fun n c h => C12Frame.readCollSize_collSize p n c rest h⟩
+
+/-- the boundary, kernel-checked: a 40000-byte element under protocol 2 is framed with 9c 40 and read back with its
+    40000 bytes (an `int16` reading would see −25536: a "null" element whose bytes are then parsed as the next elements) -/
+example : collSize 2 40000 = some [156, 64] ∧ readCollSize 2 ([156, 64] ++ [7]) = some (40000, [7]) := by decide
+
+/-- FULL STATEMENT (does not hold under protocol ≤ 2): "null elements survive".  A null element is written with
+    length 0 (the 2-byte framing has no null) and read back as a present, EMPTY element — KF-C02-3 / KF-C12-8.
+    From protocol 3 it does survive (`C12_coll_length_readback`). -/
+theorem C02_cex_null_elem_v2 (rest : Bytes) :
+    collItem 2 none = some [0, 0] ∧ readCollItem 2 ([0, 0] ++ rest) = some (some [], rest) := by
+  refine ⟨by decide, ?_⟩
+  simp [readCollItem, readCollSize, shorter, beNat]
+
+/-- a tuple / UDT field: what appendBytes wrote, readBytes reads back — null (−1) as null, a present EMPTY value
+    (length 0) as the empty value, bytes as the same bytes -/
+theorem C02_field_roundtrip (item : Option Bytes) (rest : Bytes) (h : ∀ b, item = some b → b.length < 2^31) :
+    readBytesM (appendBytes item ++ rest) = some (item, rest) := C12Frame.readBytesM_appendBytes item rest h
+
+theorem TextFields_length {ts : List CqlTy} {gs : List GoTy} {vs : List GoVal} (h : C12Frame.TextFields ts gs vs) :
+    vs.length = ts.length ∧ gs.length = ts.length := by
+  induction h with
+  | nil => exact ⟨rfl, rfl⟩
+  | null _ ih => simp [ih.1, ih.2]
+  | ptr _ _ _ ih => simp [ih.1, ih.2]
+  | str _ _ _ ih => simp [ih.1, ih.2]
+
+/-- null, empty and non-empty keep their distinct meanings inside a tuple: a struct bound to tuple<text, …, text>
+    whose fields are `*string` (nil / pointer to "" / pointer to s) or `string` is given back unchanged by Marshal
+    followed by Unmarshal into the same struct type — every number of fields, every string, every protocol version -/
+theorem C02_tuple_text_roundtrip (p : Nat) (ts : List CqlTy) (gs : List GoTy) (vs : List GoVal)
+    (h : C12Frame.TextFields ts gs vs) (hne : ts ≠ []) :
+    ∃ b, marshal p (.tuple ts) (.struct vs) = .ok (some b) ∧
+      unmarshal p (.tuple ts) (.struct gs) (some b) = .ok (.struct vs) := by
+  obtain ⟨body, hm, hu⟩ := C12Frame.tuple_text_roundtrip p ts gs vs h
+  obtain ⟨hl1, hl2⟩ := TextFields_length h
+  refine ⟨body, ?_, ?_⟩
+  · simp [marshal, hl1, wrapTuple, hne, hm]
+  · simp [unmarshal, withPtr, stripPtr, unmarshalBase, hl2, dataBytes, hu]
+
+/-- non-vacuity, kernel-checked = replay input `rtsame 4 tuple 3 text text text st 3 nilptr ptr s - ptr s 41 struct 3
+    ptr string ptr string ptr string`: (null, EMPTY, "A") is written as ff ff ff ff | 00 00 00 00 | 00 00 00 01 41 -/
+example : marshalTupleFields 4 [.text, .text, .text] [.nilptr, .ptr (.str false []), .ptr (.str false [65])] =
+    .ok (some [255, 255, 255, 255, 0, 0, 0, 0, 0, 0, 0, 1, 65]) := by
+  have h0 : encInt (toS 32 0) = [0, 0, 0, 0] := by decide
+  have h1 : encInt (toS 32 1) = [0, 0, 0, 1] := by decide
+  have hm : encInt (-1) = [255, 255, 255, 255] := by decide
+  simp [marshalTupleFields, GoVal.isNilPtr, marshal, marshalScalar, marshalVarcharColumn, appendBytes, h0, h1, hm]
+
+example : C12Frame.TextFields [.text, .text, .text] [.ptr (.str false), .ptr (.str false), .ptr (.str false)]
+    [.nilptr, .ptr (.str false []), .ptr (.str false [65])] :=
+  .null (.ptr [] (by decide) (.ptr [65] (by decide) .nil))
+
+/-- FULL STATEMENT (does not hold): "a struct that Marshal accepts for a tuple column is given back by Unmarshal into
+    the same struct type".  unmarshalTuple decodes every field into goType(elem) and then `Set`s the struct field:
+    when the field's type is another documented type of the element (int32 for an int column, *big.Int for varint,
+    *inf.Dec for decimal) reflect.Value.Set panics.  `C02_tuple_text_roundtrip` is the part that holds (fields of type
+    goType(elem) or a pointer to it).  = replay input `rt 4 tuple 1 int st 1 i int32 5 struct 1 k int32` -/
+theorem C02_cex_tuple_field_type :
+    marshal 4 (.tuple [.int]) (.struct [.int .int32 false 5]) = .ok (some [0, 0, 0, 4, 0, 0, 0, 5]) ∧
+    unmarshal 4 (.tuple [.int]) (.struct [.int .int32 false]) (some [0, 0, 0, 4, 0, 0, 0, 5]) = .crash := by
+  have hk : marshalIntKind .int .int32 false 5 = some [0, 0, 0, 5] := by decide
+  have h4 : encInt (toS 32 4) = [0, 0, 0, 4] := by decide
+  have hd : decInt [0, 0, 0, 4] = 4 := by decide
+  have hd5 : decInt [0, 0, 0, 5] = 5 := by decide
+  have hu : unmarshalIntKind .int 5 .int = some 5 := by decide
+  have hb : (GoTy.int .int32 false == GoTy.int .int false) = false := by decide
+  constructor
+  · simp [marshal, wrapTuple, marshalTupleFields, GoVal.isNilPtr, marshalScalar, marshalIntColumn, optM, hk, appendBytes, h4]
+  · have hus : unmarshalScalar .int false [0, 0, 0, 5] (.int .int false) = .ok (.int .int false 5) := by
+      show unmarshalIntlike .int (decInt [0, 0, 0, 5]) [0, 0, 0, 5] (.int .int false) = _
+      simp [unmarshalIntlike, hd5, hu, optU]
+    simp [unmarshal, withPtr, stripPtr, unmarshalBase, dataBytes, unmarshalTupleSet, shorter, readBytesM, hd, goTypeOf,
+      hus, hb]
+/-- null ≠ empty inside a UDT, kernel-checked on the model = replay input `rtsame 4 udt 2 a text b text us 2 a ptr s - b
+    nilptr ustruct 2 a ptr string b ptr string`: (a = EMPTY, b = null) is written 00 00 00 00 | ff ff ff ff and read
+    back as (pointer to "", nil) -/
+theorem C02_udt_null_vs_empty_witness :
+    marshal 4 (.udt ["a", "b"] [.text, .text]) (.udtstruct ["a", "b"] [.ptr (.str false []), .nilptr]) =
+      .ok (some [0, 0, 0, 0, 255, 255, 255, 255]) ∧
+    unmarshal 4 (.udt ["a", "b"] [.text, .text]) (.udtstruct ["a", "b"] [.ptr (.str false), .ptr (.str false)])
+      (some [0, 0, 0, 0, 255, 255, 255, 255]) = .ok (.udtstruct ["a", "b"] [.ptr (.str false []), .nilptr]) := by
+  have h0 : encInt (toS 32 0) = [0, 0, 0, 0] := by decide
+  have hm : encInt (-1) = [255, 255, 255, 255] := by decide
+  have d0 : decInt [0, 0, 0, 0] = 0 := by decide
+  have dm : decInt [255, 255, 255, 255] = -1 := by decide
+  have l1 : lookupIdx "a" ["a", "b"] 0 = some 0 := by decide
+  have l2 : lookupIdx "b" ["a", "b"] 0 = some 1 := by decide
+  constructor
+  · simp [marshal, udtAssemble, marshalNamed, seqItems, l1, l2, marshalScalar, marshalVarcharColumn, appendBytes, h0, hm]
+  · simp [unmarshal, withPtr, stripPtr, unmarshalBase, dataBytes, unmarshalUdtStruct, zeroOf, zeroOfs, shorter, readBytesM,
+      d0, dm, l1, l2, C12Frame.unmarshalScalar_text_str, wrapPtr]
 end C02
